@@ -40,11 +40,12 @@ EXTENDS Integers, Sequences, FiniteSets, TLC, Json
 
 CONSTANTS Configs,    \* set of configuration records, see vx/props/C17.py:make_cfg
           Variant     \* "ok" | "xonly" | "notnan" | "zdata" | "revz" | "transpose"
-                      \* | "colz" | "panellim" | "inplace" | "dropempty"
+                      \* | "colz" | "panellim" | "inplace" | "dropempty" | "auxmask"
 
 VARIABLES cfg,        \* the configuration chosen
           pc,         \* "setup" | "prepare" | "panel" | "series" | "finish" | "done"
           ym, xm,     \* masks of y (values / heat-map variable) and of x (when a variable)
+          am,         \* mask of the auxiliary per-point variable (y_err / x_err, or scatter's c) when cfg.aux
           cur, bad,   \* set-up cursor and number of non-finite choices made so far
           ym0, xm0,   \* the dataset as handed to the plotting function
           useLegend, useCbar, lim,   \* decided by Prepare
@@ -54,7 +55,7 @@ VARIABLES cfg,        \* the configuration chosen
           drawn,      \* what has been drawn, in drawing order
           fin         \* <<legend drawn, colour bar drawn>>
 
-vars == <<cfg, pc, ym, xm, cur, bad, ym0, xm0, useLegend, useCbar, lim, gi, gj, zi, panels, drawn, fin>>
+vars == <<cfg, pc, ym, xm, am, cur, bad, ym0, xm0, useLegend, useCbar, lim, gi, gj, zi, panels, drawn, fin>>
 
 -----------------------------------------------------------------------------
 R == IF cfg.NR = 0 THEN 1 ELSE cfg.NR
@@ -62,7 +63,9 @@ C == IF cfg.NC = 0 THEN 1 ELSE cfg.NC
 nx == cfg.NX
 nz == cfg.NZ
 NCells == R * C * nz * nx
-Total == IF cfg.xvar THEN 2 * NCells ELSE NCells
+AOff == IF cfg.xvar THEN 2 * NCells ELSE NCells          \* where the cells of the auxiliary variable start
+Total == IF cfg.aux THEN AOff + NCells ELSE AOff
+AuxFin(i) == cfg.aux => am[i] = "f"
 Idx(r, c, z, k) == (((r - 1) * C + (c - 1)) * nz + (z - 1)) * nx + k
 SIdx(r, c, z) == ((r - 1) * C + (c - 1)) * nz + z
 
@@ -79,6 +82,7 @@ Init == /\ cfg \in Configs
         /\ pc = "setup"
         /\ ym = [i \in 1..NCells |-> "f"]
         /\ xm = [i \in 1..(IF cfg.xvar THEN NCells ELSE 0) |-> "f"]
+        /\ am = [i \in 1..(IF cfg.aux THEN NCells ELSE 0) |-> "f"]
         /\ cur = 0 /\ bad = 0
         /\ ym0 = <<>> /\ xm0 = <<>>
         /\ useLegend = FALSE /\ useCbar = FALSE /\ lim = <<>>
@@ -87,11 +91,13 @@ Init == /\ cfg \in Configs
 
 SetCell ==
     /\ pc = "setup" /\ cur < Total
-    /\ \E v \in cfg.vals :
+    /\ \E v \in (IF cur >= AOff THEN cfg.avals ELSE cfg.vals) :
           /\ v = "f" \/ bad < cfg.maxbad
           /\ IF cur < NCells
-                THEN ym' = [ym EXCEPT ![cur + 1] = v] /\ xm' = xm
-                ELSE xm' = [xm EXCEPT ![cur + 1 - NCells] = v] /\ ym' = ym
+                THEN ym' = [ym EXCEPT ![cur + 1] = v] /\ xm' = xm /\ am' = am
+                ELSE IF cur < AOff
+                THEN xm' = [xm EXCEPT ![cur + 1 - NCells] = v] /\ ym' = ym /\ am' = am
+                ELSE am' = [am EXCEPT ![cur + 1 - AOff] = v] /\ ym' = ym /\ xm' = xm
           /\ bad' = IF v = "f" THEN bad ELSE bad + 1
     /\ cur' = cur + 1
     /\ UNCHANGED <<cfg, pc, ym0, xm0, useLegend, useCbar, lim, gi, gj, zi, panels, drawn, fin>>
@@ -102,14 +108,14 @@ SetSeries ==
     /\ ym' = [i \in 1..NCells |-> IF i > cur /\ i <= cur + nx THEN "n" ELSE ym[i]]
     /\ cur' = cur + nx
     /\ bad' = bad + 1
-    /\ UNCHANGED <<cfg, pc, xm, ym0, xm0, useLegend, useCbar, lim, gi, gj, zi, panels, drawn, fin>>
+    /\ UNCHANGED <<cfg, pc, xm, am, ym0, xm0, useLegend, useCbar, lim, gi, gj, zi, panels, drawn, fin>>
 
 Start ==
     /\ pc = "setup" /\ cur = Total
     /\ pc' = "prepare"
     /\ ym0' = ym /\ xm0' = xm
     /\ bad' = 0
-    /\ UNCHANGED <<cfg, ym, xm, cur, useLegend, useCbar, lim, gi, gj, zi, panels, drawn, fin>>
+    /\ UNCHANGED <<cfg, ym, xm, am, cur, useLegend, useCbar, lim, gi, gj, zi, panels, drawn, fin>>
 
 -----------------------------------------------------------------------------
 (* calc_use_legend_or_colorbar, transcribed.  "auto" = option left at None. *)
@@ -132,6 +138,7 @@ UseCbar == IF cfg.kind = "heat" THEN cfg.colorbar # "off"
    WHOLE dataset (all panels, masked points included), unless given by zlims. *)
 FiniteCells == { i \in 1..NCells : ym[i] = "f" }
 AllQ == IF cfg.kind = "heat" THEN FiniteCells
+        ELSE IF cfg.colour = "c" /\ cfg.kind = "scatter" THEN { cfg.CTab[i] : i \in { j \in 1..NCells : AuxFin(j) } }
         ELSE IF cfg.colour = "c" THEN Elems(cfg.CTab)
         ELSE Elems(cfg.ZPos)
 Limits == IF cfg.lims # <<>> THEN cfg.lims
@@ -146,7 +153,7 @@ Prepare ==
     /\ lim' = IF Mapped /\ ~(cfg.colour = "z" /\ cfg.even) THEN Limits ELSE <<>>
     /\ gi' = 1 /\ gj' = 1
     /\ pc' = "panel"
-    /\ UNCHANGED <<cfg, ym, xm, cur, bad, ym0, xm0, zi, panels, drawn, fin>>
+    /\ UNCHANGED <<cfg, ym, xm, am, cur, bad, ym0, xm0, zi, panels, drawn, fin>>
 
 -----------------------------------------------------------------------------
 BeginPanel ==
@@ -156,7 +163,7 @@ BeginPanel ==
                                  rt |-> IF gj = C /\ cfg.NR > 0 THEN gi ELSE 0])
     /\ zi' = 1
     /\ pc' = "series"
-    /\ UNCHANGED <<cfg, ym, xm, cur, bad, ym0, xm0, useLegend, useCbar, lim, gi, gj, drawn, fin>>
+    /\ UNCHANGED <<cfg, ym, xm, am, cur, bad, ym0, xm0, useLegend, useCbar, lim, gi, gj, drawn, fin>>
 
 (* the slice the current panel's data is taken from *)
 SrcR == IF Variant = "transpose" /\ R = C THEN gj ELSE gi
@@ -169,6 +176,7 @@ YFin(r, c, z, k) == ym[Idx(r, c, z, k)] = "f"
 NotNull(r, c, z, k) ==
     CASE Variant = "xonly"  -> XFin(r, c, z, k)
       [] Variant = "notnan" -> ym[Idx(r, c, z, k)] # "n" /\ (cfg.xvar => xm[Idx(r, c, z, k)] # "n")
+      [] Variant = "auxmask" -> XFin(r, c, z, k) /\ YFin(r, c, z, k) /\ AuxFin(Idx(r, c, z, k))
       [] OTHER              -> XFin(r, c, z, k) /\ YFin(r, c, z, k)
 
 RECURSIVE Keep(_, _, _, _)
@@ -202,7 +210,9 @@ SeriesColour(r, c, z, turn) ==
 
 PointColours(r, c, z, pts) ==
     IF cfg.colour = "c" /\ cfg.kind = "scatter"
-       THEN [j \in 1..Len(pts) |-> Norm(cfg.CTab[Idx(r, c, z, pts[j])], UsedLimits(r, c))]
+       THEN [j \in 1..Len(pts) |-> IF AuxFin(Idx(r, c, z, pts[j]))
+                                       THEN Norm(cfg.CTab[Idx(r, c, z, pts[j])], UsedLimits(r, c))
+                                       ELSE <<0, 0>>]          \* no colour value at this point: nothing demanded
        ELSE <<>>
 
 DrawSeries ==
@@ -220,7 +230,7 @@ DrawSeries ==
                                IF \E k \in 1..nx : i = Idx(SrcR, SrcC, dz, k) /\ ym[i] # "f" THEN "f" ELSE ym[i]]
                  ELSE ym' = ym
     /\ zi' = zi + 1
-    /\ UNCHANGED <<cfg, pc, xm, cur, bad, ym0, xm0, useLegend, useCbar, lim, gi, gj, panels, fin>>
+    /\ UNCHANGED <<cfg, pc, xm, am, cur, bad, ym0, xm0, useLegend, useCbar, lim, gi, gj, panels, fin>>
 
 PanelFinite(r, c) == { i \in FiniteCells : \E j \in 1..nz, k \in 1..nx : i = Idx(r, c, j, k) }
 UsedLimitsHeat ==
@@ -239,20 +249,20 @@ DrawMesh ==
                                     IN  IF (IF Variant = "notnan" THEN ym[i] # "n" ELSE ym[i] = "f") THEN i ELSE 0]],
                                lim |-> UsedLimitsHeat])
     /\ zi' = nz + 1
-    /\ UNCHANGED <<cfg, pc, ym, xm, cur, bad, ym0, xm0, useLegend, useCbar, lim, gi, gj, panels, fin>>
+    /\ UNCHANGED <<cfg, pc, ym, xm, am, cur, bad, ym0, xm0, useLegend, useCbar, lim, gi, gj, panels, fin>>
 
 EndPanel ==
     /\ pc = "series" /\ zi > nz
     /\ IF gj < C THEN gj' = gj + 1 /\ gi' = gi /\ pc' = "panel"
        ELSE IF gi < R THEN gj' = 1 /\ gi' = gi + 1 /\ pc' = "panel"
        ELSE gj' = gj /\ gi' = gi /\ pc' = "finish"
-    /\ UNCHANGED <<cfg, ym, xm, cur, bad, ym0, xm0, useLegend, useCbar, lim, zi, panels, drawn, fin>>
+    /\ UNCHANGED <<cfg, ym, xm, am, cur, bad, ym0, xm0, useLegend, useCbar, lim, zi, panels, drawn, fin>>
 
 Finish ==
     /\ pc = "finish"
     /\ fin' = <<useLegend, useCbar>>
     /\ pc' = "done"
-    /\ UNCHANGED <<cfg, ym, xm, cur, bad, ym0, xm0, useLegend, useCbar, lim, gi, gj, zi, panels, drawn>>
+    /\ UNCHANGED <<cfg, ym, xm, am, cur, bad, ym0, xm0, useLegend, useCbar, lim, gi, gj, zi, panels, drawn>>
 
 Next == \/ SetCell \/ SetSeries \/ Start \/ Prepare \/ BeginPanel \/ DrawSeries \/ DrawMesh \/ EndPanel \/ Finish
         \/ (pc = "done" /\ UNCHANGED vars)
@@ -266,6 +276,7 @@ TypeOK == /\ pc \in {"setup", "prepare", "panel", "series", "finish", "done"}
           /\ cfg \in Configs
           /\ \A i \in 1..Len(ym) : ym[i] \in {"f", "n", "i"}
           /\ \A i \in 1..Len(xm) : xm[i] \in {"f", "n", "i"}
+          /\ \A i \in 1..Len(am) : am[i] \in {"f", "n", "i"}
 
 Entries(r, c) == SelectSeq(drawn, LAMBDA d : d.r = r /\ d.c = c)
 PanelDone(r, c) == pc \in {"finish", "done"} \/ (r < gi) \/ (r = gi /\ c < gj) \/ (r = gi /\ c = gj /\ pc = "series" /\ zi > nz)
@@ -280,7 +291,9 @@ OneSeriesEach ==
                 ELSE /\ Len(e) = nz
                      /\ \A i \in 1..nz : e[i].s = i
 
-(* the points of a series are exactly the positions where x and y are both finite
+(* (the auxiliary variable's mask am does not occur below: a point whose error-bar or
+   colour value is NaN / inf is still one of the dataset's finite (x, y) pairs)
+   the points of a series are exactly the positions where x and y are both finite
    (histogram: where the value is finite), each once, in order - in the panel
    titled with the slice's coordinates *)
 PointsExact ==
@@ -305,6 +318,9 @@ MeshExact ==
 GlobalLimits ==
     IF cfg.lims # <<>> THEN cfg.lims
     ELSE IF cfg.kind = "heat" THEN (IF FiniteCells = {} THEN <<>> ELSE <<SetMin(FiniteCells), SetMax(FiniteCells)>>)
+    ELSE IF cfg.colour = "c" /\ cfg.kind = "scatter"
+            THEN LET S == { cfg.CTab[i] : i \in { j \in 1..NCells : AuxFin(j) } }
+                 IN  IF S = {} THEN <<>> ELSE <<SetMin(S), SetMax(S)>>
     ELSE IF cfg.colour = "c" THEN <<SetMin(Elems(cfg.CTab)), SetMax(Elems(cfg.CTab))>>
     ELSE <<SetMin(Elems(cfg.ZPos)), SetMax(Elems(cfg.ZPos))>>
 
@@ -324,7 +340,9 @@ ColourExact ==
               [] cfg.colour = "c" /\ cfg.kind = "scatter" ->
                     /\ Len(d.pcol) = Len(d.pts)
                     /\ \A j \in 1..Len(d.pts) :
-                          IsNorm(d.pcol[j], cfg.CTab[Idx(d.r, d.c, d.s, d.pts[j])], GlobalLimits)
+                          IF AuxFin(Idx(d.r, d.c, d.s, d.pts[j]))
+                             THEN IsNorm(d.pcol[j], cfg.CTab[Idx(d.r, d.c, d.s, d.pts[j])], GlobalLimits)
+                             ELSE d.pcol[j] = <<0, 0>>
               [] OTHER -> IsNorm(d.col, cfg.CTab[SIdx(d.r, d.c, d.s)], GlobalLimits)
 
 (* each panel is titled with the coordinate of the slice drawn in it (the data side of
@@ -346,6 +364,6 @@ FinishRule == pc = "done" => fin = <<UseLegend, UseCbar>>
 (* every finished drawing, with the input that led to it, for the replay into the real code *)
 EmitCase ==
     pc = "done" =>
-        PrintT(<<"CASE", ToJson([id |-> cfg.id, ym |-> ym0, xm |-> xm0, drawn |-> drawn, panels |-> panels,
+        PrintT(<<"CASE", ToJson([id |-> cfg.id, ym |-> ym0, xm |-> xm0, am |-> am, drawn |-> drawn, panels |-> panels,
                                  legend |-> fin[1], cbar |-> fin[2], lim |-> lim])>>)
 =============================================================================
